@@ -524,9 +524,38 @@ def refnode(sim, uni):
 
 # ------------------------------------------------------------------------------------------------ searches
 
+def extensions(cfg, base, bound, window, reduced_from):
+    """all schedules that extend `base` (a tuple of deviations) by further deviations at later steps, up to `bound`"""
+    sets = []
+    level = [base]
+    for b in range(len(base), bound):
+        nxt = []
+        for bs in level:
+            last = bs[-1][0] if bs else -1
+            _, pts, _ = run_schedule(cfg, dict(bs), deviation_window=window, want_points=True, phases=False)
+            if pts is None:
+                continue
+            for step, d, alts in pts:
+                if step <= last:
+                    continue
+                for a in alts:
+                    if b + 1 >= reduced_from and not (env_only(a) and all(env_only(x[1]) for x in bs)):
+                        continue
+                    nxt.append(bs + ((step, a),))
+        sets += nxt
+        level = nxt
+    return sets
+
+
 def _dev_worker(arg):
     name, cfg, choice_sets = arg
     setup_worker()
+    if isinstance(choice_sets, dict):
+        # (base deviations, bound, window, reduced_from): enumerate the deeper levels here, in parallel
+        b = choice_sets
+        choice_sets = []
+        for base in b['bases']:
+            choice_sets += [base] + extensions(cfg, base, b['bound'], b['window'], b['reduced_from'])
     out = []
     n = 0
     for choices in choice_sets:
@@ -653,11 +682,13 @@ def run(ctx):
     nsched = {}
     for name, cfg in sorted(C.items()):
         bound = 1 if ctx.quick else 2
-        window = 32 if ctx.quick else 30
+        window = 32 if ctx.quick else 24
         if not ctx.quick and name.startswith(('ahead-by-1:A', 'fork-depth-2-longer:A')):
             bound = 3
             window = 12
         reduced_from = 99
+        if not ctx.quick and len(cfg['chains']) > 2:
+            reduced_from = 2         # three nodes: the second deviation from the reduced (environment) alphabet
         if name.startswith(('hub-at-genesis-between', 'triangle-long-at-0')):
             # two (three) deviations, the second (third) level restricted to environment deviations
             bound = 2 if ctx.quick else 3
@@ -665,14 +696,19 @@ def run(ctx):
             reduced_from = 2 if ctx.quick else 3
         if ctx.quick and name.startswith(('deep-', 'late-', 'line-C-not', 'fork-depth-1')):
             window = 14          # long chains: each execution is several times more expensive
-        sets = deviation_search(ctx, name, cfg, bound, window, reduced_from)
+        # level 0 and 1 are enumerated here; deeper levels inside the workers (one job per group of first deviations)
+        sets = deviation_search(ctx, name, cfg, min(bound, 1), window, reduced_from)
         nsched[name] = len(sets)
-        if ctx.seed:
-            import random
-            random.Random(ctx.seed).shuffle(sets)
-        k = max(1, len(sets) // 150)
-        jobs += [(name, cfg, sets[i::k]) for i in range(k)]
-    ctx.log("schedules", sum(nsched.values()), "in", len(jobs), "jobs")
+        if bound <= 1:
+            k = max(1, len(sets) // 150)
+            jobs += [(name, cfg, sets[i::k]) for i in range(k)]
+        else:
+            firsts = [s_ for s_ in sets if len(s_) == 1]
+            jobs.append((name, cfg, [()]))
+            k = max(1, len(firsts) // 6)
+            for i in range(k):
+                jobs.append((name, cfg, {'bases': firsts[i::k], 'bound': bound, 'window': window, 'reduced_from': reduced_from}))
+    ctx.log("level-0/1 schedules", sum(nsched.values()), "in", len(jobs), "jobs (deeper levels are enumerated in the workers)")
     small = [(n, c) for n, c in sorted(C.items()) if c['small']]
     cap = 20000 if ctx.quick else 80000
     djobs = [('dfs', (n, c, 2, 0 if ctx.quick else 1, cap)) for n, c in small]
